@@ -486,6 +486,16 @@ func (rm *room) propose(i int, actor user, before map[ref.Key]string) (typ strin
 		if err != nil {
 			panic(err)
 		}
+		if t.Chance(300) {
+			// the identity server signed with a second key as well (a rotation
+			// under way): one signature matches the published key, the other
+			// does not - any one that verifies is enough, whichever is looked at first
+			kid := sim.Pick(t, []gmsl.KeyID{"ed25519:1", "ed25519:-", "ed25519:00"})
+			if s2, err2 := gmsl.SignJSON("id.example", kid, identityKey(1-k), signed); err2 == nil {
+				signed = s2
+				r.Probe("third_party_invite_signed_with_two_keys")
+			}
+		}
 		typ, sk = spec.MRoomMember, world.Str(other.id)
 		content = map[string]any{"membership": "invite", "third_party_invite": map[string]any{"display_name": "x", "signed": json.RawMessage(signed)}}
 		r.Probe("third_party_invite_exchanged")
